@@ -75,12 +75,15 @@ class syntax_error(SourceFeedback):
         files = report.submission.get_files_lines()
         if filename not in files:
             files[filename] = code.split("\n")
-        if report.submission is not None:
+        if report.submission is not None and code == report.submission.main_code:
             lines = report.submission.get_lines()
             line_offsets = report.submission.line_offsets
         else:
+            # Some other text than the submission's current main code (which
+            # may be one section of a file): its lines are its own
             lines = code.split("\n")
             line_offsets = {}
+            files[filename] = lines
         exception_name = get_exception_name(exception)
         exception_name_proper = add_indefinite_article(exception_name)
         traceback = ExpandedTraceback(exception, exc_info, False,
